@@ -703,16 +703,16 @@ lkcd_max_pfn_revalidate(kdump_ctx_t *ctx, struct attr_data *attr)
 	const struct attr_ops *parent_ops;
 	kdump_status res;
 
+	/* Lock order: cache_lock first, as in lkcd_read_page(). */
+	mutex_lock(&ctx->shared->cache_lock);
 	mutex_lock(&lkcdp->pfn_block_mutex);
 
 	if (lkcdp->last_offset != lkcdp->end_offset) {
 		struct dump_page dummy_dp;
 		off_t dummy_off;
 
-		mutex_lock(&ctx->shared->cache_lock);
 		res = search_page_desc(ctx, ~(kdump_pfn_t)0,
 				       &dummy_dp, &dummy_off);
-		mutex_unlock(&ctx->shared->cache_lock);
 		if (res == KDUMP_ERR_NODATA) {
 			clear_error(ctx);
 			res = KDUMP_OK;
@@ -721,6 +721,8 @@ lkcd_max_pfn_revalidate(kdump_ctx_t *ctx, struct attr_data *attr)
 			res = set_error(ctx, res, "Cannot get max_pfn");
 	} else
 		res = KDUMP_OK;
+
+	mutex_unlock(&ctx->shared->cache_lock);
 
 	parent_ops = lkcdp->max_pfn_override.template.parent->ops;
 	parent_revalidate = parent_ops ? parent_ops->revalidate : NULL;
